@@ -80,7 +80,8 @@ def derived_factor(rng, fid, factors, wtype=None, defect=None):
     levels = []
     for i in range(nlev):
         if use_else and i == nlev - 1:
-            levels.append({"name": "L%d_%d" % (fid, i), "else": True, "weight": 1})
+            # (an else level can be weighted like any other: seed C01-elselevel-weight-shadowed)
+            levels.append({"name": "L%d_%d" % (fid, i), "else": True, "weight": 2 if rng.random() < 0.12 else 1})
             continue
         table = []
         for flat in flat_tabs[i]:
@@ -357,5 +358,29 @@ def corpus():
             "factors": [color, text, rep], "constraints": [],
             "blocks": [{"id": 0, "kind": "MultiCrossBlock", "design": [0, 1, 2], "crossings": crossings, "constraints": [],
                         "rcc": True, "mode": "repeat", "alignment": "post preamble"}], "main": 0}))
+    # a weighted ElseLevel in the crossing (within-trial and transition)
+    con_w = {"id": 2, "name": "con", "kind": "derived", "window": {"type": "within", "deps": [0, 1]},
+             "levels": [{"name": "yes", "table": [[["red"], ["red"]], [["blue"], ["blue"]]]}, {"name": "no", "else": True, "weight": 2}]}
+    out.append(("else-level-weight-2-within", {
+        "factors": [color, text, con_w], "constraints": [],
+        "blocks": [{"id": 0, "kind": "CrossBlock", "design": [0, 1, 2], "crossing": [0, 2], "constraints": [], "rcc": False}],
+        "main": 0}))
+    rep_w = {"id": 2, "name": "rep", "kind": "derived", "window": {"type": "transition", "deps": [0]},
+             "levels": [{"name": "same", "table": [[["red", "red"]], [["blue", "blue"]]]}, {"name": "diff", "else": True, "weight": 2}]}
+    out.append(("else-level-weight-2-transition", {
+        "factors": [color, text, rep_w], "constraints": [],
+        "blocks": [{"id": 0, "kind": "CrossBlock", "design": [0, 1, 2], "crossing": [2], "constraints": [], "rcc": True}],
+        "main": 0}))
+    # a crossing of q = 3 plain combinations with a complex-window factor of m = 2 levels, repeated with a
+    # partial last round of 1..m trials: the short-prefix fast path of the unranker decodes q-ary digits
+    # (seed C09-prefix-fastpath-base-m)
+    c3 = {"id": 0, "name": "colour", "kind": "simple", "levels": [["r", 1], ["g", 1], ["b", 1]]}
+    prevred = {"id": 1, "name": "prevred", "kind": "derived", "window": {"type": "transition", "deps": [0]},
+               "levels": [{"name": "yes", "table": [[["r", "r"]], [["r", "g"]], [["r", "b"]]]}, {"name": "no", "else": True}]}
+    for trials in (8, 9):
+        out.append(("repeat-complex-crossing-partial-round-%d" % trials, {
+            "factors": [c3, prevred], "constraints": [{"id": 0, "kind": "MinimumTrials", "trials": trials}],
+            "blocks": [{"id": 0, "kind": "CrossBlock", "design": [0, 1], "crossing": [0, 1], "constraints": [], "rcc": True},
+                       {"id": 1, "kind": "Repeat", "block": 0, "constraints": [0]}], "main": 1}))
     out += weighted_derived_leftover()
     return out
